@@ -27,6 +27,7 @@ def c05(chk, tier):
     chk.explanation = "Static: R-GLOBAL inventory of process-global mutable state and stateful libc calls in the conversion cone."
     rules_cg.r_global(P(), chk, "C05")
     rules_state.r_reset(P(), chk)
+    rules_state.r_engconf(P(), chk)
     rules_mem.r_init(P(), chk)
     rules_state.r_srcconst(P(), chk)
     rules_state.r_incdec(P(), chk)
@@ -99,6 +100,7 @@ def c13(chk, tier):
     chk.explanation = "Static: R-PUSHPOP (visited-stack guard brackets the recursive call) + R-ARRAY on transclude.c."
     rules_misc.r_pushpop(P(), chk)
     rules_misc.r_canonkey(P(), chk)
+    rules_state.r_outval(P(), chk)           # the metadata offset of an included file must not be the one left by an earlier call
     rules_mem.r_array(P(), chk, only_units={"transclude.c"})
     # the manifest query must not expand the engine's own text (a later transclusion for another format would find no markers)
     from .report import Check
@@ -136,6 +138,7 @@ def c12(chk, tier):
     chk.explanation = "Static: R-DUAL mirror-image check of accept/reject tables (EDPE), iteration direction, writer agreement."
     rules_critic.r_dual(P(), chk)
     rules_misc.r_link(P(), chk)     # accept/reject start their back-to-front walk at child->tail
+    rules_misc.r_rangebase(P(), chk)    # the range entry points look at (text + start, len), not at the head of the string
 
 
 def c14(chk, tier):
@@ -168,12 +171,16 @@ def c11(chk, tier):
     rules_mem.r_trimidx(P(), chk)      # no character lost at the end of a value
     rules_esc.r_wsflag(P(), chk)       # whitespace normalisation neither swallows nor doubles a blank
     rules_wrapper.r_metawindow(P(), chk)
+    rules_misc.r_byteclass(P(), chk)   # value trimming classifies bytes: a byte >= 0x80 classed as whitespace cuts a character in two
+    rules_wrapper.r_metascan(P(), chk)
 
 
 def c10(chk, tier):
     chk.explanation = "Static: R-ANCHOR anchor-family derivation agreement (reaching definitions), one label function, numbering stacks."
     rules_anchor.r_anchor(P(), chk)
     rules_anchor.r_anchor_seed(P(), chk)
+    rules_anchor.r_anchor_tocseed(P(), chk)
+    rules_misc.r_highbyte(P(), chk)    # link urls (clean_string) and ids (label_from_*) must both leave multi-byte characters alone
     rules_anchor.r_anchor_nolabels(P(), chk)
 
 
@@ -186,6 +193,7 @@ def c08(chk, tier):
     rules_esc.r_escpair(P(), chk)
     rules_balance.r_balance(P(), chk, units={"html.c", "opendocument-content.c"})
     rules_sink.r_attrbreak(P(), chk)
+    rules_sink.r_eraseguard(P(), chk)
     # every tag the writers print goes through d_string_append_printf -> vasprintf: a fragment cut short loses its `>`
     rules_dstr.r_fmtbound(P(), chk)
     rules_dstr.r_valist(P(), chk)
@@ -194,6 +202,7 @@ def c08(chk, tier):
 def c09(chk, tier):
     chk.explanation = "Static: R-ZIPTABLE member tables / cross-literal agreement / finalisation; R-PTRPTR."
     rules_zip.r_ziptable(P(), chk)
+    rules_wrap.r_dirname_once(P(), chk)      # the asset folder handed to the package builders is the input's own directory
     rules_wrap.r_ptrptr(P(), chk)
     rules_format.r_formatpair(P(), chk)
     rules_format.r_editdelta(P(), chk)
